@@ -200,7 +200,7 @@ PROPS["C01"] = {
     "theorems": lambda: thms("C01", extra=(("JediVerif.Properties.C01b", "Jedi.C01"), ("JediVerif.Properties.C01c", "Jedi.C01"), ("JediVerif.Properties.C01d", "Jedi.C01"))),
     "streams": stream_set([("pairing", 6)], ["asm", "portable32"], ALLCFG + ["asm-ndebug"], scale=3),
     "filter": lambda l: not l.startswith(("pairing_sum", "pairing_prep", "prepare")),
-    "hypotheses": ["H-bilinear: the textbook optimal-ate function of Spec/Pairing.lean is bilinear and non-degenerate on G1 x G2 (Vercauteren 2010); not provable with the Lean libraries present"],
+    "hypotheses": ["H-bilinear (C01.HBilinear): the textbook optimal-ate function of Spec/Pairing.lean is multiplicative in each argument on the r-torsion (Vercauteren 2010); not provable with the Lean libraries present; needed ONLY for the 'consequently' sentences - pairing_is_optimal_ate and outputs^r = 1 are unconditional"],
 }
 PROPS["C08"] = {
     "translators": ["consts", "tower"],
@@ -229,7 +229,7 @@ for _pid in ("C11", "C12", "C13", "C14"):
         "lean_targets": prop_modules(_pid, extra=("JediVerif.Properties.%sb" % _pid,)),
         "theorems": (lambda _p=_pid: thms(_p, extra=(("JediVerif.Properties.%sb" % _p, "Jedi.%sb" % _p),))),
         "streams": stream_set([("wkdibe", 4)], ["asm"], ["asm", "portable64", "portable32", "asan", "portable64-O0"], scale=2),
-        "hypotheses": ["H-bilinear when the abstract-group theorems are transported to the concrete pairing"],
+        "hypotheses": ["HBilinearFull (Proofs/ConcreteGroups.lean): additivity of the textbook optimal-ate function in each argument on the r-torsion - the only pairing assumption of the concrete theorems (Cxxb); HNonDegenerate for the 'only matching / only signed' directions"],
     }
 PROPS["C11"]["filter"] = lambda l: l.startswith(("wk_setup", "wk_keygen", "wk_qualify", "wk_ndkeygen", "wk_ndqualify", "wk_resample", "wk_decrypt", "wk_encrypt ")) and not l.rstrip().endswith(" ne")
 PROPS["C12"]["filter"] = lambda l: l.startswith(("wk_decrypt", "wk_ctmod")) and l.rstrip().endswith((" ne", " a", " b", " c")) or l.startswith("wk_decryptm")
@@ -255,7 +255,7 @@ PROPS["C16"] = {
     "theorems": lambda: thms("C16", extra=(("JediVerif.Properties.C16b", "Jedi.C16b"),)),
     "streams": stream_set([("lqibe", 6)], ["asm", "portable64"], ALLCFG + ["asan"], scale=2),
     "filter": lambda l: l.startswith(("lq_setup", "lq_msk", "lq_id", "lq_keygen", "lq_encrypt", "lq_decrypt", "lq_ctmod")),
-    "hypotheses": ["H-bilinear", "H-card (Q_id lies in G1 after cofactor clearing)"],
+    "hypotheses": ["C01.HBilinear (scalar-multiplication form of bilinearity of the textbook optimal-ate function) for hash_input_eq on the real groups", "H-card (Q_id lies in G1 after cofactor clearing; C10b states it as HCardG1)"],
 }
 
 # --- T7 mirrors: digests of the C++ functions the hand-written models mirror (see translate/mirrors2lean.py)
